@@ -160,7 +160,9 @@ pub fn write_pcap(path: &std::path::Path, linktype: u32, frames: &[Vec<u8>]) -> 
         b.extend((1_700_000_000u32 + i as u32).to_le_bytes());
         b.extend(0u32.to_le_bytes());
         b.extend((f.len() as u32).to_le_bytes());
-        b.extend((f.len() as u32).to_le_bytes());
+        // every third record says that the frame was longer on the wire than what was captured (a snap length, a frame
+        // check sequence that the capture cut off): the captured bytes are what there is to analyse
+        b.extend((f.len() as u32 + if i % 3 == 1 { 4 } else { 0 }).to_le_bytes());
         b.extend_from_slice(f);
     }
     std::fs::write(path, b)
